@@ -126,7 +126,7 @@ AlphabetOf ==
     [] Cfg = "brif" -> AlphaBrIf
     [] Cfg = "brif2" -> AlphaBrIf2
     [] Cfg = "mem" -> AlphaMem [] Cfg = "call" -> AlphaCall [] Cfg = "i64" -> AlphaI64
-    [] Cfg \in {"witness", "alu", "struct", "valstruct", "stress"} -> {}
+    [] Cfg \in {"witness", "alu", "struct", "valstruct", "stress", "valstress"} -> {}
     [] Cfg = "val" -> AlphaVal
     [] Cfg = "host" -> AlphaHost
     [] Cfg = "all" -> AlphaCtl \cup AlphaCtl2 \cup AlphaLoop \cup AlphaMem \cup AlphaCall \cup AlphaI64 \cup AlphaBrIf
@@ -222,11 +222,21 @@ Skel(dummy) ==
 Use(n) == IF n = 1 THEN { << End >>, << LGet(0), Bin(2, "add"), End >> } ELSE { << Bin(2, "add"), End >>, << Drop, End >>, << LGet(0), Bin(2, "add"), Bin(2, "add"), End >> }
 StressBodies(dummy) == { p \o k \o u : p \in Pend, k \in Skel(0), u \in Use(1) \cup Use(2) }
 
+(* value-carrying blocks (D2, D6 and their relatives): inside a block with a result, every sequence of four steps after a first
+   value - push a value, leave conditionally with the top value, drop, add - that the validator admits *)
+VVals == { << LGet(0) >>, << LGet(1) >>, << C32(5) >> }
+VSteps == VVals \cup { c \o << BrIf(0) >> : c \in { << LGet(0) >>, << LGet(1) >>, << C32(0) >>, << C32(1) >> } } \cup { <<>> \o << BrIf(0) >>, << Drop >>, << Bin(2, "add") >> }
+ValStressBodies(dummy) ==
+  { pre \o << Blk(2) >> \o v \o s1 \o s2 \o s3 \o s4 \o << End >> \o post :
+      pre \in { <<>> }, post \in { << End >> }, v \in VVals, s1 \in VSteps, s2 \in VSteps, s3 \in VSteps, s4 \in VSteps }
+  \cup { << LGet(0), Blk(2) >> \o v \o s1 \o s2 \o s3 \o << End, Bin(2, "add"), End >> : v \in VVals, s1 \in VSteps, s2 \in VSteps, s3 \in VSteps }
+
 WellTyped(b) == \A i \in 1..Len(b) : (b[i].op = "const" => Len(b[i].v) = b[i].t)
 FixedBodies == IF Cfg = "witness" THEN Witnesses
                ELSE IF Cfg = "struct" THEN {b \in StructBodies(0) : ValidBody(GenCtx, b)}
                ELSE IF Cfg = "valstruct" THEN ValBodies(0)
                ELSE IF Cfg = "stress" THEN {b \in StressBodies(0) : ValidBody(GenCtx, b)}
+               ELSE IF Cfg = "valstress" THEN {b \in ValStressBodies(0) : ValidBody(GenCtx, b)}
                ELSE {b \in ALUBodies(0) : WellTyped(b)}
 (* fixed bodies are classified by the recogniser: valid ones are executed by the reference, invalid ones only carry the verdict *)
 FInit == body \in FixedBodies /\ vs = VInit(2) /\ phase = (IF ValidBody(GenCtx, body) THEN "done" ELSE "bad")
